@@ -43,6 +43,26 @@ def main():
             cls = PS.build_class(prog, rec, W)
             if msg['cmd'] == 'record':
                 rec.enable_recording()
+                if msg.get('dirty_first'):
+                    # this process has a history: an earlier operation made a call whose key could not be built
+                    # (unserialisable argument; that recording is discarded, as it must be)
+                    import tempfile
+                    import shutil
+                    d0 = tempfile.mkdtemp(prefix='verif-c06d-')
+                    try:
+                        from pbt import faultrun as FR
+                        p0 = PS.assign_sids({'klass': 'instance', 'outs': [], 'class_name': 'HashSeedEarlier',
+                                             'ins': [{'alias': 'earlier', 'kind': 'instance', 'resolver': False,
+                                                      'capture': 'all', 'handler': 'none'}],
+                                             'steps': [{'t': 'in', 'i': 0, 'a': [[1, 2], FR.UNENC], 'b': None,
+                                                        'usekw': False, 'beh': 'ret', 'ret': 1, 'name': 'n1'}],
+                                             'ending': 'return', 'result': None, 'extractor': 'none'})
+                        rec0 = TapeRecorder(FileBasedTapeCassette(d0))
+                        rec0.enable_recording()
+                        W0 = PS.World('LIVE')
+                        PS.execute(PS.build_class(p0, rec0, W0), p0)
+                    finally:
+                        shutil.rmtree(d0, ignore_errors=True)
                 live = PS.execute(cls, prog)
                 rid = W.recording_ids[-1] if W.recording_ids else None
                 keys = sorted(cas.get_recording(rid).get_all_keys()) if rid else []
